@@ -197,6 +197,54 @@ fn any_fates() -> [Fate; vf::MAXT] {
     fates
 }
 
+/// The values that the 4-byte big-endian length prefix at `slot` can hold in any crash image:
+/// what the run started with, and every value the run wrote there (from the trace; concrete).
+fn len_candidates(slot: i64) -> ([u32; 4], usize) {
+    let fs = vf::fs();
+    let mut cand = [0u32; 4];
+    let mut cn = 0usize;
+    let b = &fs.base;
+    cand[cn] = u32::from_be_bytes([b.get(slot), b.get(slot + 1), b.get(slot + 2), b.get(slot + 3)]);
+    cn += 1;
+    let mut j = 0;
+    while j < fs.n {
+        let ev = &fs.trace[j];
+        if (ev.kind == vf::K_WRITE) && (ev.off == slot) {
+            // The writer stores the prefix with a pwrite of its own.
+            assert!(ev.len == 4);
+            let v = u32::from_be_bytes([ev.data[0], ev.data[1], ev.data[2], ev.data[3]]);
+            let mut seen = false;
+            let mut q = 0;
+            while q < cn {
+                if cand[q] == v {
+                    seen = true;
+                }
+                q += 1;
+            }
+            if !seen {
+                assert!(cn < 4);
+                cand[cn] = v;
+                cn += 1;
+            }
+        }
+        j += 1;
+    }
+    (cand, cn)
+}
+
+fn slot_len(img: &Img, slot: i64) -> u32 {
+    u32::from_be_bytes([img.get(slot), img.get(slot + 1), img.get(slot + 2), img.get(slot + 3)])
+}
+
+fn set_slot_len(img: &mut Img, slot: i64, v: u32) {
+    let b = v.to_be_bytes();
+    let mut q = 0;
+    while q < 4 {
+        let _ = img.set(slot + q as i64, b[q]);
+        q += 1;
+    }
+}
+
 /// Reopen on the crash image with the real `Writer::open` and decide the property.
 /// `c[0]` is the "no commit" entry; `c[1..=k]` are the workload's commits in order.
 /// `deep`: also re-load both slots to decide the slot/generation relation.
@@ -222,7 +270,38 @@ fn reopen_and_check(n: usize, c: &[Commit; 4], k: usize, deep: bool) {
         i += 1;
     }
 
-    vf::fs().vol = img;
+    // Case split on the two length prefixes.  In the crash image they are symbolic mixes of a
+    // few known values; `File::load` allocates and reads `len` bytes, and a symbolic `len` sends
+    // symbolic execution through the allocator and through `read_exact`'s retry loop up to the
+    // unwinding bound.  The split is exhaustive (asserted below), each case runs the real open on
+    // the same symbolic image with the prefix bytes replaced by the equal constants.
+    let (ca, na) = len_candidates(vf::ROOT_A);
+    let (cb, nb) = len_candidates(vf::ROOT_B);
+    let la = slot_len(&img, vf::ROOT_A);
+    let lb = slot_len(&img, vf::ROOT_B);
+    let mut matched = false;
+    let mut ia = 0;
+    while ia < na {
+        let mut ib = 0;
+        while ib < nb {
+            if (la == ca[ia]) & (lb == cb[ib]) {
+                matched = true;
+                let mut im = img;
+                set_slot_len(&mut im, vf::ROOT_A, ca[ia]);
+                set_slot_len(&mut im, vf::ROOT_B, cb[ib]);
+                vf::fs().vol = im;
+                check_open(&im, &ghost, n, c, k, lr, deep);
+            }
+            ib += 1;
+        }
+        ia += 1;
+    }
+    assert!(matched);
+    // No call left the file model (see vfile.rs: writes outside the windows, reads crossing EOF).
+    assert!(!vf::fs().out_of_model);
+}
+
+fn check_open(img: &Img, ghost: &Img, n: usize, c: &[Commit; 4], k: usize, lr: usize, deep: bool) {
     let r = Writer::open(vf::fake_fd());
     match r {
         Err(_) => {
@@ -254,7 +333,8 @@ fn reopen_and_check(n: usize, c: &[Commit; 4], k: usize, deep: bool) {
             }
             // Everything reachable from the recovered root lies below the recovered write
             // frontier, inside the file, and is on the disk with the bytes that were written
-            // (so the real `load` returns what it returned before the crash: `do_commit`).
+            // (`File::load` is a function of those bytes, so it returns what it returned before
+            // the crash).
             assert!((c[got].heads as i64) < c[got].end);
             assert!((c[got].fact_cache as i64) < c[got].end);
             assert!(w.root.free_offset >= c[got].end);
@@ -267,21 +347,25 @@ fn reopen_and_check(n: usize, c: &[Commit; 4], k: usize, deep: bool) {
             // overwritten by the next append.
             assert!(w.root.free_offset == c[got].end);
             assert!(!w.data_dirty);
+            assert!((w.next_root == ROOT_A) | (w.next_root == ROOT_B));
 
             if deep {
-                // The recovered root sits in the slot that the next commit will NOT overwrite ...
-                let live = other_root(w.next_root);
-                match w.file.load::<Root>(live).and_then(Root::validate) {
+                let ra = w.file.load::<Root>(ROOT_A).and_then(Root::validate);
+                let rb = w.file.load::<Root>(ROOT_B).and_then(Root::validate);
+                // The recovered root sits in the slot that the next commit will NOT overwrite,
+                // and its generation is strictly greater than the other slot's (if that one holds
+                // a valid root at all).
+                let (live, other) = if w.next_root == ROOT_B { (ra, rb) } else { (rb, ra) };
+                match live {
                     Ok(lv) => {
                         assert!(lv.generation == w.root.generation);
                         assert!(lv.heads == w.root.heads);
+                        assert!(lv.fact_cache == w.root.fact_cache);
                         assert!(lv.free_offset == w.root.free_offset);
                     }
                     Err(_) => assert!(false),
                 }
-                // ... and its generation is strictly greater than the other slot's (if that one
-                // holds a valid root at all).
-                match w.file.load::<Root>(w.next_root).and_then(Root::validate) {
+                match other {
                     Ok(o) => {
                         assert!(o.generation < w.root.generation);
                         kani::cover!(true, "both slots valid after the crash");
@@ -300,8 +384,6 @@ fn reopen_and_check(n: usize, c: &[Commit; 4], k: usize, deep: bool) {
             core::mem::forget(w);
         }
     }
-    // No call left the file model (see vfile.rs: writes outside the windows, reads crossing EOF).
-    assert!(!vf::fs().out_of_model);
 }
 
 /// Under Kani `buggy::Bug::new` panics (debug assertions), so no `Bug` value ever exists and
